@@ -6,7 +6,7 @@
    broken obligation and searches for a failing input. *)
 From Coq Require Import List Arith Bool NArith ZArith Lia.
 From LMBase Require Import Res.
-From LMMaxi Require Import MaxiModel MaxiKernels GenMaxi.
+From LMMaxi Require Import MaxiModel MaxiBuffer MaxiBufferProofs MaxiKernels GenMaxi.
 Import ListNotations.
 
 (* every arm of the dispatcher of the model is wired as in dispatch.rs *)
@@ -86,3 +86,58 @@ Proof.
   split; [reflexivity|]. split; [reflexivity|]. split; [reflexivity|].
   intros T le a m mz. destruct a; repeat split; reflexivity.
 Qed.
+
+(* reused score buffers (round 3): with the statements of DenseMatrix::resize and
+   StripedScores::resize read from dense.rs / scores.rs, the buffer operations are those of the
+   model the history theorems speak about (C07_history_independent ...): resize truncates or
+   appends default rows and sets the row count (also when written as truncate + guarded grow).
+   With the source of dense::Iter::new and the outer loops of the default Maximum::argmax /
+   Threshold::threshold read from pli/mod.rs, what iter() yields and what the scans walk are the
+   logical rows of any buffer that satisfies the invariant those operations maintain.  A resize
+   that only grows (seeded/C07/6) makes the first part false; an iterator / loop the translator
+   does not recognise (seeded/C07/5: `scores.iter()`) is reported as unparsable. *)
+Theorem C07_source_buffer :
+  forall (T : Type) (dflt : T) (C : nat) (b : @buffer T) (n : nat) (mi : N),
+  dm_resize_of dflt C gen_dense_resize b n = dm_resize (vec_resize dflt C) b n /\
+  Ok (ss_resize_of dflt C gen_dense_resize gen_scores_resize b n mi) = b_step C (vec_resize dflt C) b (BResize n mi) /\
+  Ok (dm_resize_of dflt C gen_dense_resize b n) = b_step C (vec_resize dflt C) b (BDResize n).
+Proof.
+  intros T dflt C b n mi. unfold gen_dense_resize, gen_scores_resize.
+  split; [|split]; resize_norm dflt C.
+Qed.
+
+Theorem C07_source_buffer_views :
+  forall (T : Type) (le : T -> T -> bool) (C : nat) (b : @buffer T) (t : T), binv C b ->
+  b_iter_of gen_dense_iter b = b_logical b /\
+  scan_rows_of gen_dense_iter gen_scan_argmax b = b_logical b /\
+  scan_rows_of gen_dense_iter gen_scan_threshold b = b_logical b /\
+  buf_threshold_generic le b t = thr_rows le t 0 (scan_rows_of gen_dense_iter gen_scan_threshold b).
+Proof.
+  intros T le C b t Hb.
+  destruct (views_are_logical C gen_dense_iter gen_scan_argmax b Hb) as [H1 H2].
+  destruct (views_are_logical C gen_dense_iter gen_scan_threshold b Hb) as [_ H3].
+  split; [exact H1|]. split; [exact H2|]. split; [exact H3|].
+  rewrite H3. unfold buf_threshold_generic. now rewrite (iter_is_logical C b Hb).
+Qed.
+
+(* the comparisons of the two f32 arg-max kernels and the block walk of argmax_sse2, read from
+   avx2.rs / sse2.rs: each vector step compares running maximum k with row register k by <=
+   (_mm_cmple_ps / _CMP_LE_OS: a later row wins a tie), the SSE2 reduction takes a column when
+   score >= best (the last column wins a tie: the model's pick_ge), the AVX2 reduction when
+   score > best (the first column wins), the SSE2 backend has 16 lanes and the kernel walks the
+   blocks at offsets i * 16 for i < C / 16 -- the model's [argmax_sse2] *)
+Theorem C07_source_compares :
+  forall (T : Type) (le lt : T -> T -> bool) (ninf : T) (C : nat) (m : list (list T)) (best x : nat * nat * T),
+  vcmp_fn le lt gen_argmax_sse2_vcmp = le /\
+  vcmp_fn le lt gen_argmax_f32_avx2_vcmp = le /\
+  rcmp_pick le lt gen_argmax_sse2_rcmp best x = pick_ge le best x /\
+  rcmp_pick le lt gen_argmax_f32_avx2_rcmp best x = (if lt (tval best) (tval x) then x else best) /\
+  gen_sse2_lanes = 16 /\
+  flat_map (fun b => sse2_block le ninf m (b * 16)) (seq 0 (C / 16))
+  = flat_map (sse2_block le ninf m) (gen_argmax_sse2_block_offsets (C / gen_sse2_lanes)).
+Proof.
+  intros. repeat split; try reflexivity.
+  unfold gen_argmax_sse2_block_offsets, gen_sse2_lanes.
+  rewrite !flat_map_concat_map, map_map. reflexivity.
+Qed.
+
